@@ -157,3 +157,24 @@ def c07_generate_history(ctx, dim):
                    tuple(g.shape) == tuple(s) and bool(np.allclose(g.voxel_size, ref.voxel_size)) and bool(np.array_equal(g.connectivity, ref.connectivity))
                    and int(g.num_faces) == int(ref.num_faces))
         ctx.tick()
+
+
+@ob("C07.generate_fresh", kind="B", cases=[dict(dim=1), dict(dim=2), dict(dim=3)], funcs=FUNCS, samples=(1, 2),
+    cite="image-derived grids for random images (each grid is its caller's own object)",
+    note="bounded: two images with IDENTICAL voxel counts and voxel sizes get two independent Grid objects - no array is shared, and editing the arrays of the first grid in place "
+         "(a caller's padded-lookup trick) leaves a grid generated afterwards exactly the grid of its image (after seed C07_g: grids memoised by image metadata)")
+def c07_generate_fresh(ctx, dim):
+    shape = {1: (5,), 2: (3, 4), 3: (2, 3, 2)}[dim]
+    mk = lambda: darsia.Image(np.zeros(shape), space_dim=dim, scalar=True, dimensions=[1.5, 2.0, 0.5][:dim])
+    g1 = darsia.generate_grid(mk())
+    arrays = lambda g: {k: v for k, v in vars(g).items() if isinstance(v, np.ndarray)}
+    g1.reverse_connectivity[g1.reverse_connectivity == -1] = g1.num_faces
+    g1.connectivity[...] = 0
+    g1.cell_corner_indices[...] = 7
+    g2 = darsia.generate_grid(mk())
+    ctx.ensure("a second image with the same metadata gets its own Grid object", g2 is not g1)
+    a1, a2 = arrays(g1), arrays(g2)
+    ctx.ensure("no array of the second grid shares memory with the first", all(not np.shares_memory(a1[k], a2[k]) for k in a1 if k in a2 and a1[k].size))
+    ref = darsia.Grid(tuple(shape), [d / n for d, n in zip([1.5, 2.0, 0.5][:dim], shape)])
+    for k, v in arrays(ref).items():
+        ctx.ensure(f"grid generated after the first one was edited: {k} is the grid's own", k in a2 and a2[k].shape == v.shape and bool(np.array_equal(a2[k], v)))
